@@ -5,7 +5,7 @@
 set -u
 PATCH="$1"; PROP="$2"; TIER="${3:-quick}"
 ROOT="$(cd "$(dirname "$0")/.." && pwd)"
-MT=/tmp/mt-repo
+MT="${MT_REPO:-/tmp/mt-repo}"
 [ -d "$MT" ] || git -C /repo worktree add --detach "$MT" HEAD -q
 git -C "$MT" checkout -q -- . && git -C "$MT" clean -fdq
 git -C "$MT" checkout -q --detach "$(git -C /repo rev-parse HEAD)"
